@@ -279,9 +279,12 @@ def bounded(seed, n):
     from pydiffx.reader import DiffXReader
     rng = random.Random(seed)
     evals = 0
+    distinct = set()
     for _ in range(n):
         t = random_text(rng)
         evals += 1
+        if t:
+            distinct.add(t)
         e = lossless(t)
         if e:
             return evals, {'text': t, 'error': e}
@@ -310,6 +313,7 @@ def bounded(seed, n):
             continue
         files += 1
         evals += 1
+        distinct.add(text)
         e = lossless(text)
         if e:
             return evals, {'text': text, 'error': e}
@@ -325,7 +329,7 @@ def bounded(seed, n):
         if tags != want:
             return evals, {'text': text, 'error': 'header tokens %r, '
                            'section headers %r' % (tags, want)}
-    return evals, None, files
+    return evals, None, files, len(distinct)
 
 
 def main():
@@ -340,6 +344,8 @@ def main():
         out = {'evaluations': r[0], 'witness': r[1]}
         if len(r) > 2:
             out['files'] = r[2]
+        if len(r) > 3:
+            out['distinct_nontrivial'] = r[3]
         json.dump(out, sys.stdout)
 
 
